@@ -485,7 +485,25 @@ impl TypeChecker {
         }
     }
 
+    /// A parameter's default value must have the parameter's declared type (as for field defaults).
+    fn check_param_defaults(&mut self, params: &[Spanned<Param>]) {
+        for param in params {
+            if let Some(default) = &param.node.default {
+                let default_ty = self.check_expr(default);
+                let param_ty = resolve_type(&param.node.ty.node, &self.symbols);
+                if !self.types_compatible(&default_ty, &param_ty) {
+                    self.errors.push(errors::type_mismatch(
+                        &param_ty.to_string(),
+                        &default_ty.to_string(),
+                        default.span,
+                    ));
+                }
+            }
+        }
+    }
+
     fn check_function(&mut self, func: &FunctionDecl) {
+        self.check_param_defaults(&func.params);
         self.symbols.enter_scope(ScopeKind::Function);
 
         // Define parameters
@@ -523,6 +541,7 @@ impl TypeChecker {
     }
 
     fn check_method_with_self_ty(&mut self, method: &MethodDecl, self_ty: ResolvedType) {
+        self.check_param_defaults(&method.params);
         self.symbols.enter_scope(ScopeKind::Method {
             receiver: method.receiver,
         });
